@@ -405,6 +405,8 @@ class Installer:
         # Always replace danging symlinks
         if os.path.islink(from_file) and not os.path.isfile(from_file):
             return False
+        if os.path.islink(to_file) and not os.path.exists(to_file):
+            return False
         from_time = os.stat(from_file).st_mtime
         to_time = os.stat(to_file).st_mtime
         return from_time <= to_time
@@ -418,8 +420,9 @@ class Installer:
         # copyfile fails if the target file already exists, so remove it to
         # allow overwriting a previous install. If the target is not a file, we
         # want to give a readable error.
-        if os.path.exists(to_file):
-            if not os.path.isfile(to_file):
+        if os.path.lexists(to_file):
+            # lexists: a (dangling) symlink left by a previous install must be replaced too
+            if not os.path.isfile(to_file) and not os.path.islink(to_file):
                 raise MesonException(f'Destination {to_file!r} already exists and is not a file')
             if self.should_preserve_existing_file(from_file, to_file):
                 append_to_log(self.lf, f'# Preserving old file {to_file}\n')
